@@ -2,16 +2,22 @@ package main
 
 // C14: preload is behaviour-preserving; chosencases selects exactly the listed tags.
 //
-// One cell = the SAME generated ammo file run through two real http providers (components/providers/http
-// NewProvider), preload off and on, with one consumer:
-//   fmt=uri tags=a,b,c cases=b,c limit=2 passes=0 cap=8 junk=0
-// `cases=-` = no chosencases; `tags=-` = a file without entries; tags are drawn from a small alphabet so that subsets
-// match several, one or no entry.
-// Observation: for each side (s = streaming, p = preload) the delivered entry ids, whether the harness had to cut
-// the run at `cap`, what Run returned and what the consumer saw at the end; tagsok = every delivered ammo carried
-// the tag of its entry.
+// One cell = the SAME generated ammo source run through two real http providers, preload off and on, with one
+// consumer:
+//   fmt=uri tags=a,b,c cases=b,c limit=2 passes=0 cap=8 junk=0 [src=uris] [via=yaml]
+// `cases=-` = no chosencases; `tags=-` = a file without entries.  In tags / cases a token `_` is the empty tag (an
+// entry without a tag; chosencases [""]) and `~` inside a token is a space.  `junk` = layout of the file (0..3, see
+// harness/c14cell: headers, blank lines, CRLF, missing final newline, pretty-printed multi-line JSON objects, all
+// objects on one line, indented array).  `src=uris`: uri entries given inline in the config (`uris:`) instead of a
+// file.  `via=yaml`: the providers are built by the plugin registry from a config map (type/file/uris/limit/passes/
+// chosencases/preload keys) as when pandora reads a config file; otherwise by http.NewProvider.
+// `cap` = the harness cancels the context when `cap` ammo have been acquired: greater than the number of ammo a
+// bounded cell delivers (never reached then), or smaller (the run is cancelled in the middle of a pass).
+// Observation: for each side (s = streaming, p = preload) the delivered entry ids, whether the harness cut the run at
+// `cap`, what Run returned and what the consumer saw at the end; tagsok = every delivered ammo carried the tag of its
+// entry.
 //   s.seq=1,2 s.cut=0 s.run=nil s.end=closed p.seq=1,2 p.cut=0 p.run=nil p.end=closed tagsok=1
-// A file that NewProvider rejects is observed as run=construct end=norun on that side.
+// A source that the constructor rejects is observed as run=construct end=norun on that side.
 
 import (
 	"fmt"
@@ -20,11 +26,25 @@ import (
 	"strings"
 	"time"
 
+	"verifharness/c14cell"
 	"verifharness/drv"
-	"verifharness/provcell"
 )
 
-var formats = []string{provcell.KURI, provcell.KURIPost, provcell.KRaw, provcell.KJSONLine, provcell.KJSONArr}
+var formats = c14cell.Kinds
+
+func tok(s string) string {
+	if s == "" {
+		return "_"
+	}
+	return strings.ReplaceAll(s, " ", "~")
+}
+
+func untok(s string) string {
+	if s == "_" {
+		return ""
+	}
+	return strings.ReplaceAll(s, "~", " ")
+}
 
 func chosenCount(tags, cases []string) int {
 	if len(cases) == 0 {
@@ -42,6 +62,22 @@ func chosenCount(tags, cases []string) int {
 	return n
 }
 
+// expected number of deliveries of a bounded cell (ok = false: unbounded)
+func expectedM(limit, passes, f int) (int, bool) {
+	switch {
+	case limit == 0 && passes == 0:
+		return 0, false
+	case passes == 0:
+		return limit, true
+	case limit == 0:
+		return passes * f, true
+	}
+	if limit < passes*f {
+		return limit, true
+	}
+	return passes * f, true
+}
+
 func capFor(limit, passes, f, n int) int {
 	if limit == 0 && passes == 0 {
 		return 3*n + 5
@@ -53,26 +89,53 @@ func capFor(limit, passes, f, n int) int {
 	return m + n + 3
 }
 
-func line(format string, tags, cases []string, limit, passes int, junk bool) string {
+type cellSpec struct {
+	format        string
+	tags, cases   []string // cases nil = none
+	limit, passes int
+	cap           int // 0 = capFor
+	layout        int
+	uris, yaml    bool
+}
+
+func (c cellSpec) line() string {
 	cs := "-"
-	if len(cases) > 0 {
-		cs = strings.Join(cases, ",")
-	}
-	j := 0
-	if junk {
-		j = 1
+	if len(c.cases) > 0 {
+		ts := make([]string, len(c.cases))
+		for i, s := range c.cases {
+			ts[i] = tok(s)
+		}
+		cs = strings.Join(ts, ",")
 	}
 	ts := "-"
-	if len(tags) > 0 {
-		ts = strings.Join(tags, ",")
+	if len(c.tags) > 0 {
+		tt := make([]string, len(c.tags))
+		for i, s := range c.tags {
+			tt[i] = tok(s)
+		}
+		ts = strings.Join(tt, ",")
 	}
-	return fmt.Sprintf("fmt=%s tags=%s cases=%s limit=%d passes=%d cap=%d junk=%d", format, ts, cs,
-		limit, passes, capFor(limit, passes, chosenCount(tags, cases), len(tags)), j)
+	cp := c.cap
+	if cp == 0 {
+		cp = capFor(c.limit, c.passes, chosenCount(c.tags, c.cases), len(c.tags))
+	}
+	s := fmt.Sprintf("fmt=%s tags=%s cases=%s limit=%d passes=%d cap=%d junk=%d", c.format, ts, cs, c.limit, c.passes, cp,
+		c.layout%c14cell.Layouts(c.format))
+	if c.uris && c.format == c14cell.KURI && len(c.tags) > 0 { // an empty `uris:` list is no source at all
+		s += " src=uris"
+	}
+	if c.yaml {
+		s += " via=yaml"
+	}
+	return s
 }
 
 func gen(r *rand.Rand, tier string) []string {
 	var out []string
-	// exhaustive small part: fixed files x all subsets of {a,b,c} plus a subset matching nothing
+	add := func(c cellSpec) { out = append(out, c.line()) }
+	thorough := tier == "thorough"
+
+	// (A) exhaustive small part: fixed files x all subsets of {a,b,c} plus subsets matching nothing
 	files := [][]string{{"a"}, {"a", "b"}, {"a", "b", "c"}, {"b", "a", "b"}, {"a", "a", "c", "b"}, {}}
 	subsets := [][]string{nil, {"a"}, {"b"}, {"c"}, {"a", "b"}, {"b", "c"}, {"a", "c"}, {"a", "b", "c"}, {"zz"}, {"c", "zz"}}
 	for _, f := range formats {
@@ -88,22 +151,118 @@ func gen(r *rand.Rand, tier string) []string {
 						if len(tags) > 0 && chosenCount(tags, cases) == 0 && passes == 0 && limit > 1 {
 							continue
 						}
-						out = append(out, line(f, tags, cases, limit, passes, (fi+si+limit+passes)%2 == 1))
+						h := fi + si + limit + passes
+						add(cellSpec{format: f, tags: tags, cases: cases, limit: limit, passes: passes, layout: h,
+							uris: h%3 == 0, yaml: h%4 == 1})
 					}
 				}
 			}
 		}
 	}
-	extra := 4000
-	maxN := 9
-	if tier == "thorough" {
-		extra = 80000
-		maxN = 30
+
+	// (B) every layout x source x construction route on two files with untagged entries ("" chosen explicitly too)
+	bfiles := [][]string{{"a", "", "b", "a"}, {"", "a b", "a"}}
+	bsubsets := [][]string{nil, {"a"}, {""}, {"a", ""}, {"a b"}, {"zz"}, {"b", "a b"}}
+	bbounds := [][2]int{{0, 0}, {3, 0}, {0, 2}, {5, 2}, {2, 3}}
+	for _, f := range formats {
+		for lay := 0; lay < c14cell.Layouts(f); lay++ {
+			for _, tags := range bfiles {
+				for _, cases := range bsubsets {
+					for bi, b := range bbounds {
+						for route := 0; route < 4; route++ {
+							uris, yaml := route&1 == 1, route&2 == 2
+							if uris && f != c14cell.KURI {
+								continue
+							}
+							if !thorough && (lay+bi+route)%2 == 1 && f != c14cell.KURI {
+								continue
+							}
+							add(cellSpec{format: f, tags: tags, cases: cases, limit: b[0], passes: b[1], layout: lay, uris: uris, yaml: yaml})
+						}
+					}
+				}
+			}
+		}
 	}
-	// tags that are prefixes / case variants of each other: the filter must compare whole tags exactly
-	alphabet := []string{"a", "b", "c", "ab", "B"}
+
+	// (C) the run is cancelled in the middle: every cap below the number of ammo a bounded cell delivers
+	cfiles := [][]string{{"a", "b", "c"}, {"b", "a", "b", "c"}}
+	csubsets := [][]string{nil, {"b"}, {"a", "c"}, {"b", "c"}}
+	for fi, f := range formats {
+		for _, tags := range cfiles {
+			for si, cases := range csubsets {
+				for _, b := range [][2]int{{4, 0}, {0, 2}, {5, 3}, {7, 2}} {
+					m, _ := expectedM(b[0], b[1], chosenCount(tags, cases))
+					for cp := 1; cp < m; cp++ {
+						if !thorough && (cp+fi+si)%2 == 1 {
+							continue
+						}
+						add(cellSpec{format: f, tags: tags, cases: cases, limit: b[0], passes: b[1], cap: cp, layout: cp + si,
+							uris: cp%2 == 0, yaml: cp%3 == 0})
+					}
+				}
+			}
+		}
+	}
+
+	// (D) thorough: every file of up to 4 entries over the tags {a, b, none} x every chosencases subset of
+	// {a, b, "", zz} x limit 0..4 x passes 0..2, every format
+	if thorough {
+		alpha := []string{"a", "b", ""}
+		var all [][]string
+		var rec func(cur []string, n int)
+		rec = func(cur []string, n int) {
+			if n == 0 {
+				all = append(all, append([]string(nil), cur...))
+				return
+			}
+			for _, a := range alpha {
+				rec(append(cur, a), n-1)
+			}
+		}
+		for n := 1; n <= 4; n++ {
+			rec(nil, n)
+		}
+		calpha := []string{"a", "b", "", "zz"}
+		for fi, f := range formats {
+			for ti, tags := range all {
+				for mask := 0; mask < 16; mask++ {
+					var cases []string
+					for j, a := range calpha {
+						if mask&(1<<j) != 0 {
+							cases = append(cases, a)
+						}
+					}
+					for limit := 0; limit <= 4; limit++ {
+						for passes := 0; passes <= 2; passes++ {
+							if chosenCount(tags, cases) == 0 && passes == 0 && limit > 0 {
+								continue
+							}
+							h := fi + ti + mask + limit + passes
+							add(cellSpec{format: f, tags: tags, cases: cases, limit: limit, passes: passes, layout: h,
+								uris: h%2 == 0, yaml: h%5 == 0})
+						}
+					}
+				}
+			}
+		}
+	}
+
+	// (E) random cells
+	extra := 5000
+	maxN := 9
+	if thorough {
+		extra = 400000
+		maxN = 40
+	}
+	// tags that are prefixes / case variants of each other, contain a space, or are absent: the filter must compare
+	// whole tags exactly
+	alphabet := []string{"a", "b", "c", "ab", "B", "", "a b"}
 	for i := 0; i < extra; i++ {
 		n := 1 + r.Intn(maxN)
+		if thorough && r.Intn(50) == 0 {
+			n = maxN + r.Intn(200)
+		}
 		if r.Intn(40) == 0 {
 			n = 0
 		}
@@ -125,6 +284,9 @@ func gen(r *rand.Rand, tier string) []string {
 			if r.Intn(4) == 0 {
 				cases = append(cases, "zz")
 			}
+			if r.Intn(8) == 0 && len(cases) > 0 {
+				cases = append(cases, cases[0]) // a tag listed twice
+			}
 		}
 		limit, passes := 0, 0
 		switch r.Intn(5) {
@@ -136,10 +298,17 @@ func gen(r *rand.Rand, tier string) []string {
 			passes = 1 + r.Intn(4)
 			limit = 1 + r.Intn(passes*n+2)
 		}
-		if n > 0 && chosenCount(tags, cases) == 0 && passes == 0 && r.Intn(4) != 0 {
+		f := chosenCount(tags, cases)
+		if n > 0 && f == 0 && passes == 0 && r.Intn(4) != 0 {
 			passes = 1 + r.Intn(3) // see above: a quarter of these cells keeps passes = 0
 		}
-		out = append(out, line(formats[r.Intn(len(formats))], tags, cases, limit, passes, r.Intn(2) == 0))
+		c := cellSpec{format: formats[r.Intn(len(formats))], tags: tags, cases: cases, limit: limit, passes: passes,
+			layout: r.Intn(4), uris: r.Intn(3) == 0, yaml: r.Intn(4) == 0}
+		// a fifth of the bounded cells is cancelled somewhere before its end
+		if m, ok := expectedM(limit, passes, f); ok && m >= 2 && r.Intn(5) == 0 {
+			c.cap = 1 + r.Intn(m-1)
+		}
+		add(c)
 	}
 	return out
 }
@@ -149,7 +318,7 @@ func atoi(s string) int {
 	return n
 }
 
-func side(prefix string, o provcell.Obs) string {
+func side(prefix string, o c14cell.Obs) string {
 	ids := make([]string, len(o.Seq))
 	for i, v := range o.Seq {
 		ids[i] = strconv.Itoa(v)
@@ -168,41 +337,43 @@ func side(prefix string, o provcell.Obs) string {
 	return fmt.Sprintf("%s.seq=%s %s.cut=%d %s.run=%s %s.end=%s", prefix, seq, prefix, cut, prefix, o.Run, prefix, o.End)
 }
 
-func tagsOf(kv map[string]string) []string {
-	if kv["tags"] == "-" || kv["tags"] == "" {
+func listOf(s string) []string {
+	if s == "-" || s == "" {
 		return nil
 	}
-	return strings.Split(kv["tags"], ",")
+	ps := strings.Split(s, ",")
+	for i := range ps {
+		ps[i] = untok(ps[i])
+	}
+	return ps
 }
 
-// runCell: provcell.Run already repeats a cell that looks stuck once; a cell that still looks stuck is run a third
+// runCell: c14cell.Run already repeats a cell that looks stuck once; a cell that still looks stuck is run a third
 // time with a slower watchdog (600 ms ticks), so that a stall of a loaded machine is never reported as a hang.
-func runCell(c provcell.Cell) provcell.Obs {
-	o := provcell.Run(c)
+func runCell(c c14cell.Cell) c14cell.Obs {
+	o := c14cell.Run(c)
 	if o.Construct == "" && (o.End != "closed" || o.Run == "noreturn") {
 		c.Tick = 600 * time.Millisecond
-		o = provcell.Run(c)
+		o = c14cell.Run(c)
 	}
 	return o
 }
 
 func run(input string) string {
 	kv := drv.KV(input)
-	tags := tagsOf(kv)
-	var cases []string
-	if kv["cases"] != "-" && kv["cases"] != "" {
-		cases = strings.Split(kv["cases"], ",")
-	}
-	mk := func(preload bool) provcell.Cell {
-		return provcell.Cell{
+	tags := listOf(kv["tags"])
+	cases := listOf(kv["cases"])
+	mk := func(preload bool) c14cell.Cell {
+		return c14cell.Cell{
 			Kind: kv["fmt"], Preload: preload, Limit: atoi(kv["limit"]), Passes: atoi(kv["passes"]),
-			Tags: tags, Chosen: cases, Cons: 1, Cap: atoi(kv["cap"]), Junk: kv["junk"] == "1",
+			Tags: tags, Chosen: cases, Cap: atoi(kv["cap"]), Layout: atoi(kv["junk"]),
+			Uris: kv["src"] == "uris", YAML: kv["via"] == "yaml",
 		}
 	}
 	s := runCell(mk(false))
 	p := runCell(mk(true))
 	tagsok := 1
-	for _, o := range []provcell.Obs{s, p} {
+	for _, o := range []c14cell.Obs{s, p} {
 		for i, id := range o.Seq {
 			if id < 0 || id >= len(tags) || o.SeqTags[i] != tags[id] {
 				tagsok = 0
@@ -214,11 +385,8 @@ func run(input string) string {
 
 func class(input, obs string) string {
 	kv := drv.KV(input)
-	tags := tagsOf(kv)
-	var cases []string
-	if kv["cases"] != "-" {
-		cases = strings.Split(kv["cases"], ",")
-	}
+	tags := listOf(kv["tags"])
+	cases := listOf(kv["cases"])
 	f := chosenCount(tags, cases)
 	sel := "some"
 	switch {
@@ -241,7 +409,14 @@ func class(input, obs string) string {
 	case p:
 		b = "passes"
 	}
-	return kv["fmt"] + "/" + sel + "/" + b
+	if m, ok := expectedM(atoi(kv["limit"]), atoi(kv["passes"]), f); ok && f > 0 && atoi(kv["cap"]) < m {
+		b += "+cancelled"
+	}
+	src := kv["fmt"]
+	if kv["src"] == "uris" {
+		src += "(uris)"
+	}
+	return src + "/" + sel + "/" + b
 }
 
 func main() {
@@ -252,8 +427,10 @@ func main() {
 		Class:   class,
 		Workers: 24,
 		Timeout: 40 * time.Second,
-		Rule: "the same generated ammo file (uri, uripost, raw, jsonline objects, jsonline array) through the real http provider with preload off and on: " +
-			"5 fixed files and the empty file x every subset of the tags {a,b,c} plus subsets matching nothing x limit 0..4 x passes 0..3, plus random files (tags from {a,b,c,ab,B}), " +
-			"random chosencases subsets (incl. nothing-matching) and bounds; class = format / filter shape / bound shape",
+		Rule: "the same generated ammo source (uri file or inline uris, uripost, raw, http/json objects, http/json array; 3-4 layouts each: headers, blank lines, CRLF, " +
+			"missing final newline, pretty-printed / one-line JSON) through the real http provider with preload off and on, built by NewProvider or by the plugin registry from a config map: " +
+			"fixed files and the empty file x every subset of the tags {a,b,c} plus subsets matching nothing x limit 0..4 x passes 0..3; layouts x sources x routes on files with untagged entries; " +
+			"every cancellation point below the end of bounded cells; thorough: every file of <= 4 entries over {a,b,untagged} x every chosencases subset of {a,b,\"\",zz} x limit 0..4 x passes 0..2; " +
+			"plus random files (tags from {a,b,c,ab,B,untagged,'a b'}), random chosencases subsets (incl. nothing-matching, duplicates) and bounds; class = format(source) / filter shape / bound shape",
 	})
 }
